@@ -16,7 +16,7 @@ MUTANTS = [
  ("ic_take_loses_include", "C15", "src/index/create.rs", "include_columns: self.include_columns.clone(),", "include_columns: vec![],"),
  ("ts_rc_instead_of_arc", "C20", "src/types.rs", "#[cfg(feature = \"thread-safe\")]\npub type RcOrArc<T> = std::sync::Arc<T>;", "#[cfg(feature = \"thread-safe\")]\npub type RcOrArc<T> = std::rc::Rc<T>;"),
  ("ts_iden_without_send_sync", "C20", "src/types.rs", "#[cfg(feature = \"thread-safe\")]\niden_trait!(Send, Sync);", "#[cfg(feature = \"thread-safe\")]\niden_trait!();"),
- ("ts_array_rc", "C20", "src/table/column.rs", "    Array(RcOrArc<ColumnType>),", "    Array(std::rc::Rc<ColumnType>),"),
+ ("ts_array_rc", "C20", "src/table/column.rs", [("    Array(RcOrArc<ColumnType>),", "    Array(std::rc::Rc<ColumnType>),"), ("self.types = Some(ColumnType::Array(RcOrArc::new(elem_type)));", "self.types = Some(ColumnType::Array(std::rc::Rc::new(elem_type)));")], None),
  ("ts_searc_rc_unsafe_impl", "C20", "src/types.rs", [
     ("pub struct SeaRc<I>(pub(crate) RcOrArc<I>)\nwhere\n    I: ?Sized;", "pub struct SeaRc<I>(pub(crate) std::rc::Rc<I>)\nwhere\n    I: ?Sized;\nunsafe impl<I: ?Sized> Send for SeaRc<I> {}\nunsafe impl<I: ?Sized> Sync for SeaRc<I> {}"),
     ("SeaRc(RcOrArc::clone(&self.0))", "SeaRc(std::rc::Rc::clone(&self.0))"),
